@@ -20,7 +20,24 @@ def source_snippet(P, fn, bb):
     if sp.get("exp"):
         m = sp.get("macro") or "macro"
         mm = re.search(r'"([^"]+)"', m)
-        return "<%s>" % (mm.group(1).replace("$crate::", "") if mm else m)
+        nm = mm.group(1).replace("$crate::", "") if mm else m
+        if nm in ("assert", "assert_eq", "assert_ne") and sp.get("xl0"):
+            # an assertion is identified by what it asserts: `<assert> s.len() < 64` (a known finding about one bound must
+            # not cover another bound)
+            repo = getattr(P, "repo", None) or "/repo"
+            path = os.path.join(repo, sp.get("xfile") or fn.blocks[bb].get("file") or fn.file or "")
+            if path not in _SRC:
+                try:
+                    _SRC[path] = open(path, encoding="utf-8", errors="replace").read().split("\n")
+                except OSError:
+                    _SRC[path] = None
+            lines = _SRC[path]
+            if lines and sp["xl0"] <= len(lines):
+                txt = re.sub(r"\s+", " ", lines[sp["xl0"] - 1]).strip()
+                mc = re.search(r"assert(?:_eq|_ne)?!\((.*)\);?\s*$", txt)
+                if mc:
+                    return ("<%s> %s" % (nm, mc.group(1)))[:70]
+        return "<%s>" % nm
     repo = getattr(P, "repo", None) or "/repo"
     path = os.path.join(repo, fn.blocks[bb].get("file") or fn.file or "")      # blocks of an inlined helper keep their file
     if path not in _SRC:
